@@ -60,7 +60,8 @@ class Sched(Engine):
             dtype = D.pick_dtype(rng)
             trail = rng.choice([[], [], [3], [2, 2]])
             rows = rng.randint(1, 40)
-        return {'rows': rows, 'trail': trail, 'dtype': dtype, 'vseed': rng.getrandbits(32)}
+        return {'rows': rows, 'trail': trail, 'dtype': dtype, 'vseed': rng.getrandbits(32),
+                'mode': 'r' if rng.random() < 0.3 else 'r+'}
 
     def gen_idx(self, rng, n):
         if rng.random() < 0.5:
@@ -326,6 +327,8 @@ class _SState:
                 self.probe('read_while_actor_live')
             return 'read'
         if act == 'write':
+            if self.mode == 'r':
+                return 'skip_readonly'
             idx = self.resolve(a['idx'])
             v = a['v']
             try:
@@ -346,7 +349,10 @@ class _SState:
         shape = (arr['rows'],) + tuple(arr['trail'])
         self.model = D.rand_bits(shape, dtype, arr['vseed'])
         self.n = arr['rows']
-        self.a = self.darr.asarray(self.path, self.model, accessmode='r+')
+        self.mode = arr.get('mode', 'r+')
+        self.a = self.darr.asarray(self.path, self.model, accessmode=self.mode)
+        if self.mode == 'r':
+            self.probe('read_only_handle')
         self.held = []
         self.nwrites = 0
         for g, p in enumerate(sc['gens']):
@@ -461,7 +467,8 @@ class Frames(Engine):
                     ops.append({'act': 'read', 'i': rng.randrange(n)})
             return {'engine': 'Frames', 'prop': 'C14', 'kind': 'chunks', 'n': n,
                     'trail': rng.choice([[], [], [3], [2, 2]]), 'dtype': D.pick_dtype(rng), 'vseed': rng.getrandbits(32),
-                    'p': p, 'ops': ops, 'finish': rng.choice(['exhaust', 'exhaust', 'close', 'abandon'])}
+                    'p': p, 'ops': ops, 'finish': rng.choice(['exhaust', 'exhaust', 'close', 'abandon']),
+                    'mode': 'r' if rng.random() < 0.3 else 'r+'}
         if r < 0.8:
             n = rng.randint(1, 30)
             bad = rng.choice(['chunklen0', 'chunklen_neg', 'step0', 'step_neg', 'end_gt_n', 'start_ge_end', 'start_eq_end',
@@ -678,7 +685,10 @@ class Frames(Engine):
         dtype = np.dtype(sc['dtype'])
         model = D.rand_bits((n,) + tuple(sc['trail']), dtype, sc['vseed'])
         path = os.path.join(sb, 'a.darr')
-        a = darr.asarray(path, model, accessmode='r+')
+        mode = sc.get('mode', 'r+')
+        a = darr.asarray(path, model, accessmode=mode)
+        if mode == 'r':
+            st['probes']['read_only_handle'] = 1
         p = sc['p']
         s, e = p['start'], p['end']
         if e is not None and e <= (s or 0):
@@ -715,7 +725,12 @@ class Frames(Engine):
                     adv()
             elif op['act'] == 'write':
                 i = op['i'] % n
-                a[i] = op['v']
+                if mode == 'r':      # the write goes through another, writable handle on the same directory
+                    w = darr.Array(path, accessmode='r+')
+                    w[i] = op['v']
+                    del w
+                else:
+                    a[i] = op['v']
                 model[i] = op['v']
                 wrote = True
             else:
